@@ -21,14 +21,13 @@ type FA struct {
 	rejOnly map[int]bool   // block can only reach rejecting exits
 }
 
-var fas = map[*ssa.Function]*FA{}
 
 func (p *Program) FA(fn *ssa.Function) *FA {
-	if a := fas[fn]; a != nil {
+	if a := p.fas[fn]; a != nil {
 		return a
 	}
 	a := &FA{P: p, Fn: fn, X: p.Ex(fn), edgeDom: map[*ssa.If][2]map[int]bool{}, exit: map[int]string{}, rejOnly: map[int]bool{}}
-	fas[fn] = a
+	p.fas[fn] = a
 	a.build()
 	return a
 }
